@@ -1,0 +1,15 @@
+//go:build verif
+
+package index
+
+// VerifAwaitAsync waits for all asynchronous out-of-order re-indexing
+// goroutines started so far to finish.
+func (x *Index) VerifAwaitAsync() { x.reindexWg.Wait() }
+
+// VerifPending reports the number of blobs still waiting for a dependency and
+// the number of blobs ready to be re-indexed but not yet run.
+func (x *Index) VerifPending() (needs, ready int) {
+	x.RLock()
+	defer x.RUnlock()
+	return len(x.needs), len(x.readyReindex)
+}
